@@ -188,7 +188,7 @@ class Builder:
         if k == "null":
             return False
         # switch / unstructured: opaque
-        out.append(("effect", "maybe", self.info(fr, s, what="unstructured statement")))
+        out.append(("effect", "maybe", self.info(fr, s, opaque=True, what="unstructured statement")))
         self.havoc_all(fr)
         return False
 
@@ -664,7 +664,13 @@ class Builder:
         n, q, recv, kind = astx.callee(e)
         node = stmt or e
         if n is None:
-            out.append(("effect", "maybe", self.info(fr, node, what="indirect call", target=astx.show(e["f"]))))
+            out.append(("effect", "maybe", self.info(fr, node, opaque=True, what="indirect call", target=astx.show(e["f"]))))
+            return
+        if e["f"].get("k") == "ref" and e["f"].get("d") in ("param", "local"):
+            ty = e["f"].get("ty", "")
+            if "index_constant" in ty or "integral_constant" in ty:
+                return
+            out.append(("effect", "maybe", self.info(fr, node, opaque=True, what="call of a callable object", target=n, callable=n)))
             return
         if is_handler_call(e):
             out.append(("guard", T.c(0), self.info(fr, node, src="unconditional handler call", handler=e, macros=[])))
@@ -679,7 +685,7 @@ class Builder:
             return
         cands = self.resolve(e, fr)
         # algorithms that write through an argument: classify by destination
-        if kind == "free" and n in WRITERS and not self._want_inline(n, cands):
+        if kind == "free" and n in WRITERS and not self._has_guards(cands):
             dests = WRITERS[n]
             wheres = []
             for di in dests:
@@ -703,17 +709,17 @@ class Builder:
                 tgt = self.classify_target(recv, fr)
                 if tgt == "local":
                     return
-                out.append(("effect", "maybe", self.info(fr, node, what="unresolved member call", target=astx.show(e["f"]))))
+                out.append(("effect", "maybe", self.info(fr, node, opaque=True, what="unresolved member call", target=astx.show(e["f"]))))
                 if tgt == "own":
                     self.bump(fr.ctx.this_name)
             else:
-                out.append(("effect", "maybe", self.info(fr, node, what="unresolved call", target=astx.show(e["f"]))))
+                out.append(("effect", "maybe", self.info(fr, node, opaque=True, what="unresolved call", target=astx.show(e["f"]))))
             return
         cal = self.pick(cands, e, fr)
         if fr.depth >= self.max_depth or id(cal) in self.stack:
             if cal.get("const") or cal.get("kind") == "conversion":
                 return
-            out.append(("effect", "maybe", self.info(fr, node, what="call beyond inlining bound", target=cal["q"])))
+            out.append(("effect", "maybe", self.info(fr, node, opaque=True, what="call beyond inlining bound", target=cal["q"])))
             if kind == "member" and (astx.is_this(recv)):
                 self.bump(fr.ctx.this_name)
             return
